@@ -80,6 +80,38 @@ def specTable : List (List S × List S) := [
     "GetTotalPacketsReceived".toList]),
   ([tyL3F1], ["SetDefaultConnectionService".toList, "GetDefaultConnectionService".toList])]
 
+/-- which UPnP action each facade operation stands for (hand-written from the operations' names
+    and the IGD service templates — NOT read from the source) -/
+def specOps : List (S × S) := [
+  ("async_get_total_bytes_received".toList, "GetTotalBytesReceived".toList),
+  ("async_get_total_bytes_sent".toList, "GetTotalBytesSent".toList),
+  ("async_get_total_packets_received".toList, "GetTotalPacketsReceived".toList),
+  ("async_get_total_packets_sent".toList, "GetTotalPacketsSent".toList),
+  ("async_get_enabled_for_internet".toList, "GetEnabledForInternet".toList),
+  ("async_set_enabled_for_internet".toList, "SetEnabledForInternet".toList),
+  ("async_get_common_link_properties".toList, "GetCommonLinkProperties".toList),
+  ("async_get_external_ip_address".toList, "GetExternalIPAddress".toList),
+  ("async_get_generic_port_mapping_entry".toList, "GetGenericPortMappingEntry".toList),
+  ("async_get_specific_port_mapping_entry".toList, "GetSpecificPortMappingEntry".toList),
+  ("async_add_port_mapping".toList, "AddPortMapping".toList),
+  ("async_delete_port_mapping".toList, "DeletePortMapping".toList),
+  ("async_get_connection_type_info".toList, "GetConnectionTypeInfo".toList),
+  ("async_set_connection_type".toList, "SetConnectionType".toList),
+  ("async_request_connection".toList, "RequestConnection".toList),
+  ("async_request_termination".toList, "RequestTermination".toList),
+  ("async_force_termination".toList, "ForceTermination".toList),
+  ("async_get_status_info".toList, "GetStatusInfo".toList),
+  ("async_get_port_mapping_number_of_entries".toList, "GetPortMappingNumberOfEntries".toList),
+  ("async_get_nat_rsip_status".toList, "GetNATRSIPStatus".toList),
+  ("async_get_default_connection_service".toList, "GetDefaultConnectionService".toList),
+  ("async_set_default_connection_service".toList, "SetDefaultConnectionService".toList)]
+
+/-- the action an operation must invoke (`[]` for an operation the table does not know) -/
+def specAction (method : S) : S := (get? specOps method).getD []
+
+/-- everything posted during a call is the operation's own action -/
+def actionsOk (method : S) (posted : List S) : Bool := posted.all (· == specAction method)
+
 /-- the service types that may define `act` -/
 def specFamily (act : S) : List S :=
   match specTable.find? (fun p => p.2.contains act) with
@@ -127,7 +159,7 @@ def nonnegOk : Val → Bool
 /-- a failure shows as that failure, a successful reading as a number (failures are isolated) -/
 def isoOk (raw : Raw) (v : Val) : Bool :=
   match raw with
-  | .fail e => v == .exc e
+  | .fail e => v == .exc e || v == .none   -- shown as that failure, or as "no value"; never as a number
   | .ok _ => isInt v
   | _ => !v.isExc
 
@@ -172,8 +204,8 @@ def sampleOk (p : Prev) (tNow : Int) (r : Readings) (o : Except Nat Sample) : Bo
     -- the call raises only when every reading failed
     (allFail r, ⟨tNow, failVal r.br, failVal r.bs, failVal r.pr, failVal r.ps⟩)
   | .ok s =>
-    (!allFail r
-      && counterOk true p.t tNow p.br r.br s.br s.rbr
+    -- (a result is acceptable also when all six failed: the text does not demand a raise)
+    (counterOk true p.t tNow p.br r.br s.br s.rbr
       && counterOk true p.t tNow p.bs r.bs s.bs s.rbs
       && counterOk false p.t tNow p.pr r.pr s.pr s.rpr
       && counterOk false p.t tNow p.ps r.ps s.ps s.rps
